@@ -227,8 +227,12 @@ def run(res):
     from props.c05 import tree_hash
     nm = 0
     decisions = []
-    for i in range(12 if res.tier == "quick" else 100):
-        cfg = wl.gen_cfg(rng)
+    # (and cadences beyond 2**31 - 1 and 2**32 - 1 milliseconds: files of a month; the stored values are 64-bit)
+    big = [wl.Cfg(1, 1, 2592000, 2592000000, 1500000000, False, 0, False, "i", 2, "<", False, 1),
+           wl.Cfg(1, 1, 4294967, 4294967000, 1500000000, False, 0, False, "i", 2, "<", False, 1),
+           wl.Cfg(10, 1, 2147484, 2147484000, 15000000000, False, 0, False, "f", 4, "<", True, 2)]
+    mcfgs = [wl.gen_cfg(rng) for _ in range(12 if res.tier == "quick" else 100)] + big
+    for i, cfg in enumerate(mcfgs):
         for with_data in (False, True):
             chdir = os.path.join(work, "m%d_%d" % (i, with_data), "ch")
             os.makedirs(chdir)
